@@ -283,12 +283,18 @@ type response struct {
 }
 
 func (e *logEnv) post(ep string, body []byte) response {
+	ctx, cancel := context.WithTimeout(context.Background(), 30*time.Second)
+	defer cancel()
+	return e.postCtx(ctx, ep, body)
+}
+
+// postCtx serves one submission whose request context is ctx (the issuer scenario cancels it
+// before or during the request, as a client that went away does).
+func (e *logEnv) postCtx(ctx context.Context, ep string, body []byte) response {
 	path := "/ct/v1/add-chain"
 	if ep == "prechain" {
 		path = "/ct/v1/add-pre-chain"
 	}
-	ctx, cancel := context.WithTimeout(context.Background(), 30*time.Second)
-	defer cancel()
 	req := httptest.NewRequest("POST", path, bytes.NewReader(body)).WithContext(ctx)
 	rec := httptest.NewRecorder()
 	func() {
@@ -1273,6 +1279,274 @@ func (d *driver) run2(e *logEnv, c *subCase, wait string) {
 	d.run(e, c)
 }
 
+// ---- issuer scenario: the first attempt to store a new chain certificate fails ----------------
+//
+// "every chain certificate becomes a retrievable issuer" must also hold when the Upload of
+// issuer/<sha256> fails the first time: a transient backend error, or a request whose context is
+// cancelled before / while the issuer is fetched and uploaded (a backend honouring ctx then
+// returns ctx.Err()). Such a request must be answered with a server error and must not reach the
+// pool; the same chain is resubmitted until it is accepted, and the ordinary monitors of
+// finishCase (mon_issuers: every fingerprint of the accepted entry names a stored issuer with
+// the right contents) run on every attempt. Each request also prints
+//
+//	upissuers|issuers|known|stored|fetchok|uploadok|=>|ok/err:known':stored'
+//
+// the issuer loop of addLeafToPool as a step of Submit/IssuerModel.v: per chain certificate
+// whether its fingerprint was in the in-memory cache, what issuer/<fp> held (none/same/other
+// contents), whether the backend's Fetch and Upload worked for it during this request (observed
+// on the backend), and the same state afterwards.
+
+type issuerTree struct{ X, X1, X2, PX, PX2 *authority }
+
+type faultPlan struct {
+	kind string // none, transient, cancelled, cancel-at-fetch, cancel-at-upload, tampered
+	k    int    // cancel-at-*: the k-th Fetch/Upload of an issuer/ key within the request cancels its context
+}
+
+func issuerBits(l []string) string {
+	if len(l) == 0 {
+		return "-"
+	}
+	return strings.Join(l, ",")
+}
+
+// issuerState: per chain certificate, is the fingerprint cached, and what does issuer/<fp> hold
+func (e *logEnv) issuerState(issuers [][]byte) (known, stored []string) {
+	for _, der := range issuers {
+		fp := sha256.Sum256(der)
+		known = append(known, b2i(e.log.VerifIssuerKnown(fp)))
+		obj, ok := e.be.get(fmt.Sprintf("issuer/%x", fp))
+		switch {
+		case !ok:
+			stored = append(stored, "none")
+		case bytes.Equal(obj, der):
+			stored = append(stored, "same")
+		default:
+			stored = append(stored, "other")
+		}
+	}
+	return
+}
+
+// faultAttempts submits c under plan (the fault applies from the first attempt on; cancellation
+// only to the first attempt) and resubmits the same request until it is answered 200.
+func (d *driver) faultAttempts(e *logEnv, c *subCase, plan faultPlan) {
+	issuers := c.full[1:]
+	base := c.desc
+	max := len(issuers) + 3
+	if plan.kind == "tampered" {
+		max = 2
+	}
+	d.stats["issuerfault:"+plan.kind]++
+	accepted := false
+	for attempt := 1; attempt <= max && !accepted; attempt++ {
+		c.desc = fmt.Sprintf("issuerfault:%s/%d,attempt%d,%s,issuers=%d", plan.kind, plan.k, attempt, c.ep, len(issuers))
+		known0, stored0 := e.issuerState(issuers)
+		e.be.takeIssuerEvents()
+		ctx, cancel := context.WithTimeout(context.Background(), 30*time.Second)
+		e.be.failIssuerFirst = plan.kind == "transient"
+		if attempt == 1 {
+			switch plan.kind {
+			case "cancelled":
+				cancel()
+			case "cancel-at-fetch", "cancel-at-upload":
+				op, seen := strings.TrimPrefix(plan.kind, "cancel-at-"), 0
+				e.be.onIssuer = func(o, key string) {
+					if o == op {
+						if seen++; seen == plan.k {
+							cancel()
+						}
+					}
+				}
+			}
+		}
+		now := time.Now().Unix()
+		rsp := e.postCtx(ctx, c.ep, c.body)
+		cancel()
+		e.be.onIssuer, e.be.failIssuerFirst = nil, false
+		events := e.be.takeIssuerEvents()
+		known1, stored1 := e.issuerState(issuers)
+
+		fetchOK, uploadOK := make([]string, len(issuers)), make([]string, len(issuers))
+		uploadFailures := 0
+		for i, der := range issuers {
+			key := fmt.Sprintf("issuer/%x", sha256.Sum256(der))
+			fetchOK[i], uploadOK[i] = "1", "1"
+			for _, ev := range events {
+				if ev.key == key && ev.op == "fetch" && ev.injected {
+					fetchOK[i] = "0"
+				}
+				if ev.key == key && ev.op == "upload" && ev.failed {
+					uploadOK[i] = "0"
+					uploadFailures++
+				}
+			}
+		}
+		issuerErr := strings.Contains(string(rsp.body), "failed to upload issuer")
+		stepFailed := uploadFailures > 0 || plan.kind == "tampered"
+		r := "ok"
+		if issuerErr {
+			r = "err"
+		}
+		d.emit("upissuers|%s|%s|%s|%s|%s|=>|%s:%s:%s", hxList(issuers), issuerBits(known0), issuerBits(stored0),
+			issuerBits(fetchOK), issuerBits(uploadOK), r, issuerBits(known1), issuerBits(stored1))
+		d.stats["upissuers:"+r]++
+
+		c.wait = "ok"
+		if stepFailed {
+			c.wait = "issuerfail" // the model's WOther: addLeafToPool returns the issuer error, 500
+		}
+		d.finishCase(e, c, now, rsp)
+		accepted = rsp.code == 200
+
+		if uploadFailures > 0 {
+			// THE PROPERTY on the faulted request: a submission whose issuer upload failed is answered
+			// with a server error (never 200, never blamed on the client) and does not reach the pool
+			e.waitSequenced()
+			size := e.treeSize()
+			res := "holds"
+			what := fmt.Sprintf("%d failed Upload(s) of issuer/ objects during this request (%s, attempt %d)", uploadFailures, plan.kind, attempt)
+			switch {
+			case rsp.code == 200:
+				res = "FAILS:" + what + " but the submission is answered 200 with an SCT"
+			case rsp.code < 500 || rsp.code > 599:
+				res = fmt.Sprintf("FAILS:%s but the submission is answered %d, not a server error: %s", what, rsp.code, strings.TrimSpace(string(rsp.body)))
+			case size != int64(len(e.indexes)):
+				res = fmt.Sprintf("FAILS:%s, the submission is answered %d (%s), yet its leaf was pooled and sequenced: tree size %d, %d indexes handed out",
+					what, rsp.code, strings.TrimSpace(string(rsp.body)), size, len(e.indexes))
+			}
+			if res != "holds" {
+				res += ":ep=" + c.ep + ":chain=" + hxList(c.full)
+			}
+			d.mon("mon_issuer_fault", d.ncase, c.desc, res)
+		}
+	}
+	c.desc = base
+	if plan.kind != "tampered" {
+		res := "holds"
+		if !accepted {
+			res = fmt.Sprintf("FAILS:an acceptable chain is still refused after %d attempts although only the first Upload of each issuer/ object failed (%s):ep=%s:chain=%s",
+				max, plan.kind, c.ep, hxList(c.full))
+		}
+		d.mon("mon_issuer_retry", d.ncase, "issuerfault:"+plan.kind+","+base, res)
+	}
+}
+
+func (d *driver) issuerFaults(n int) {
+	be := newMemBackend()
+	be.honourCtx = true
+	e := d.newLog("issuer-faults", 0, be, newMemLock(), true)
+	defer e.log.CloseCache()
+
+	type job struct {
+		tree   int
+		issuer func(t *issuerTree) *authority
+		pre    bool
+		root   bool
+		plan   faultPlan
+	}
+	X := func(t *issuerTree) *authority { return t.X }
+	X1 := func(t *issuerTree) *authority { return t.X1 }
+	X2 := func(t *issuerTree) *authority { return t.X2 }
+	PX := func(t *issuerTree) *authority { return t.PX }
+	PX2 := func(t *issuerTree) *authority { return t.PX2 }
+	pick := []func(t *issuerTree) *authority{X, X1, X2, PX, PX2}
+	depth := []int{1, 2, 3, 2, 4} // chain certificates of a chain issued by pick[i]
+	jobs := []job{
+		{0, X2, false, true, faultPlan{"none", 0}},
+		{0, PX2, true, false, faultPlan{"transient", 0}}, // X2, X1, X already stored: only PX2 is new
+		{1, X2, false, true, faultPlan{"transient", 0}},
+		{2, PX2, true, true, faultPlan{"transient", 0}},
+		{3, X, false, false, faultPlan{"transient", 0}},
+		{4, PX, true, false, faultPlan{"transient", 0}},
+		{5, X2, false, true, faultPlan{"cancelled", 0}},
+		{6, PX2, true, false, faultPlan{"cancelled", 0}},
+		{7, X1, false, true, faultPlan{"cancel-at-fetch", 1}},
+		{8, PX2, true, true, faultPlan{"cancel-at-fetch", 2}},
+		{9, X2, false, false, faultPlan{"cancel-at-fetch", 3}},
+		{10, PX, true, true, faultPlan{"cancel-at-upload", 1}},
+		{11, X2, false, true, faultPlan{"cancel-at-upload", 2}},
+		{12, PX2, true, false, faultPlan{"cancel-at-upload", 4}},
+		{13, X1, false, true, faultPlan{"tampered", 0}},
+		{1, X1, false, false, faultPlan{"transient", 0}}, // everything known: no backend operation at all
+	}
+	ntrees := 14
+	for i := 0; i < 4+n/25; i++ {
+		j := d.r.Intn(len(pick))
+		jb := job{tree: ntrees, issuer: pick[j], pre: j >= 3, root: d.r.Intn(2) == 0}
+		switch d.r.Intn(5) {
+		case 0, 1:
+			jb.plan = faultPlan{"transient", 0}
+		case 2:
+			jb.plan = faultPlan{"cancelled", 0}
+		case 3:
+			jb.plan = faultPlan{"cancel-at-fetch", 1 + d.r.Intn(depth[j])}
+		case 4:
+			jb.plan = faultPlan{"cancel-at-upload", 1 + d.r.Intn(depth[j])}
+		}
+		ntrees++
+		jobs = append(jobs, jb)
+		if d.r.Intn(2) == 0 { // a second chain in the same hierarchy: some of its certificates are stored by now
+			j2 := d.r.Intn(len(pick))
+			jobs = append(jobs, job{tree: jb.tree, issuer: pick[j2], pre: j2 >= 3, root: d.r.Intn(2) == 0, plan: faultPlan{"transient", 0}})
+		}
+	}
+	trees := make([]*issuerTree, ntrees)
+	var roots [][]byte
+	for i := range trees {
+		t := &issuerTree{}
+		t.X = d.p.newAuthority(fmt.Sprintf("root X%d", i), nil, caOpts{})
+		t.X1 = d.p.newAuthority(fmt.Sprintf("intermediate X%d.1", i), t.X, caOpts{})
+		t.X2 = d.p.newAuthority(fmt.Sprintf("intermediate X%d.2", i), t.X1, caOpts{})
+		t.PX = d.p.newAuthority(fmt.Sprintf("precert signing PX%d", i), t.X, caOpts{ctEKU: true})
+		t.PX2 = d.p.newAuthority(fmt.Sprintf("precert signing PX%d.2", i), t.X2, caOpts{ctEKU: true})
+		trees[i] = t
+		roots = append(roots, t.X.der)
+	}
+	if err := e.log.SetRootsFromPEM(context.Background(), pemOf(roots...)); err != nil {
+		abort("issuer-faults: SetRootsFromPEM failed: %v", err)
+	}
+	e.rootsDER = roots
+	e.startSequencer()
+	for _, jb := range jobs {
+		s := spec{issuer: jb.issuer(trees[jb.tree]), naPos: 2, ep: "chain", includeRoot: jb.root}
+		if jb.pre {
+			s.poison, s.ep = 1, "prechain"
+		}
+		c := d.build(e, s)
+		if c == nil || c.full == nil {
+			fatal("issuer-faults: no case")
+		}
+		if jb.plan.kind == "tampered" { // issuer/<fp> of the first chain certificate holds something else
+			be.put(fmt.Sprintf("issuer/%x", sha256.Sum256(c.full[1])), []byte("not the issuer"))
+		}
+		d.faultAttempts(e, c, jb.plan)
+	}
+	d.checkRound(e, "issuer-faults")
+
+	// every fingerprint of every entry of this log names a stored issuer whose SHA-256 it is
+	res := "holds"
+	size := e.treeSize()
+	for i := int64(0); i < size && res == "holds"; i++ {
+		le, err := e.readLeaf(i)
+		if err != nil {
+			res = fmt.Sprintf("FAILS:entry %d cannot be read back: %v", i, err)
+			break
+		}
+		for _, fp := range le.ChainFingerprints {
+			obj, ok := be.get(fmt.Sprintf("issuer/%x", fp))
+			if !ok {
+				res = fmt.Sprintf("FAILS:entry %d of the log names issuer/%x, which is not stored:entry=%s", i, fp, showEntry(le))
+			} else if sha256.Sum256(obj) != fp {
+				res = fmt.Sprintf("FAILS:entry %d of the log names issuer/%x, whose stored contents have another SHA-256:entry=%s", i, fp, showEntry(le))
+			}
+		}
+	}
+	d.stats["mon:mon_issuers_all"]++
+	d.emit("mon_issuers_all|%s|%d|=>|%s", e.name, size, res)
+	e.stopSequencer()
+}
+
 // ---- main -----------------------------------------------------------------------------------
 
 func main() {
@@ -1446,6 +1720,7 @@ func main() {
 	e3.log.CloseCache()
 
 	d.admission()
+	d.issuerFaults(n)
 
 	keys := make([]string, 0, len(d.stats))
 	for k := range d.stats {
